@@ -114,3 +114,10 @@ package chainexchange
 //@   property C18
 //@ structural storesonly PubSubChainExchange.chainsDiscovered in NewPubSubChainExchange : same as chainsWanted
 //@   property C18
+
+// C14 decoder sweep: no index, slice or allocation-size panic for any input the CBOR reader can produce.
+//@ func (*Message).UnmarshalCBOR
+//@   property C14
+//@   modifies auto
+//@   maypanic
+
